@@ -172,6 +172,24 @@ func (a *easm) expr(e *Expr) {
 		a.op(opCOINBASE)
 	case "gasprice":
 		a.op(opGASPRICE)
+	case "gaslimit":
+		a.op(opGASLIMIT)
+	case "chainid":
+		a.op(opCHAINID)
+	case "basefee":
+		a.op(0x48)
+	case "difficulty":
+		a.op(0x44)
+	case "blockhash": // of the previous block
+		a.push(1).op(opNUMBER, opSUB, 0x40)
+	case "gasleft":
+		a.op(opGAS)
+	case "codesize":
+		a.op(opCODESIZE)
+	case "calldatasize":
+		a.op(opCALLDATASIZE)
+	case "returndatasize":
+		a.op(opRETURNDATASIZE)
 	case "add":
 		a.expr(e.A)
 		a.expr(e.B)
